@@ -135,7 +135,23 @@ func (b *Batch) Add(caseID string, files Files) error {
 
 func goEnv() []string {
 	env := os.Environ()
-	return append(env, "GOFLAGS=-mod=mod", "GOPROXY=off", "GOSUMDB=off", "GOTOOLCHAIN=local", "GOWORK=off")
+	return append(env, "GOFLAGS=-mod=mod", "GOPROXY=off", "GOSUMDB=off", "GOTOOLCHAIN=local", "GOWORK=off", "GOCACHE="+ScratchCache())
+}
+
+// ScratchCache is the build cache of the scratch modules. Every batch compiles
+// packages under names of its own, so their objects are never reused: kept in
+// the user's build cache they only pile up (134 GB after a day of runs here).
+// They go to a cache of the harness' own, which the driver trims at the start
+// of every run (cmd/verif trimScratchCache). VERIF_GOCACHE overrides the place.
+func ScratchCache() string {
+	if c := os.Getenv("VERIF_GOCACHE"); c != "" {
+		return c
+	}
+	root := os.Getenv("VERIF_ROOT")
+	if root == "" {
+		root = "/verif"
+	}
+	return filepath.Join(root, ".gocache")
 }
 
 var reErrLine = regexp.MustCompile(`^([^\s:]+\.go):(\d+):(\d+): (.*)$`)
